@@ -358,6 +358,7 @@ int main(int argc, char **argv)
 	    (int)getpid());
     if (argc >= 2 && strcmp(argv[1], "count") == 0) {
 	printf("%d\n", CF_NPOOL * N_SHAPES);
+	fflush(stdout);	/* LeakSanitizer may _exit before stdio is flushed */
 	return 0;
     }
     if (argc >= 4 && strcmp(argv[1], "single") == 0) {
